@@ -370,7 +370,7 @@ def run_check(prop, tier):
                 if len(samples) < 3:
                     samples.append(smp)
             violations += x.get("violations") or []
-            sim_ns += x.get("sim_nanos", 0)
+            sim_ns += int(x["sim_seconds"] * 1e9) if "sim_seconds" in x else x.get("sim_nanos", 0)
             if x.get("note"):
                 notes.append(x["note"])
             for k, v in (x.get("exhaustive") or {}).items():
